@@ -155,13 +155,16 @@ def loaded_by_staff(score):
         if len(part._quarter_durations) != 1:
             q = None
         for qd in part._quarter_durations:
-            if not isinstance(qd, (int, np.integer)):
+            if not isinstance(qd, (int, np.integer)) or qd <= 0:
                 nonint.append(("divisions", qd, type(qd).__name__))
         for n in part.iter_all(S.Note, include_subclasses=True):
             if n.tie_prev is not None:
                 continue
             grace = isinstance(n, S.GraceNote)
             qq = int(part.quarter_duration_map(n.start.t))
+            if qq <= 0:
+                nonint.append(("divisions", float(part.quarter_duration_map(n.start.t)), "in force at t=%s" % n.start.t))
+                qq = 1
             if not all(isinstance(x, (int, np.integer)) for x in (n.start.t, n.duration_tied)):
                 nonint.append((n.id, n.start.t, n.duration_tied))
             out.setdefault(n.staff, []).append((F(n.start.t) / qq, F(0) if grace else F(n.duration_tied) / qq, n.step, n.alter or 0, n.octave, grace))
